@@ -171,6 +171,7 @@ CURATED_C01 = [
     ["/{d: /[0-9]+/}/{r: /a+/}", "/{d2: /[0-9]+/}/a", "/1/{z}"],
     ["/{r: /a+/}", "/{s: /a*b?/}", "/{t: /[ab]{2}/}"],
     ["/?b", "/{x}"], ["/?{y}", "/a/{z}"], ["/?{m: **}"],
+    ["/{m: **, capture: 1}/e", "/{x}/{y}/{z}", "/{n: **}"], ["/{m: **, capture: 1}/{y}", "/{n: **}"],
 ]
 
 CURATED_C02 = [
@@ -183,6 +184,8 @@ CURATED_C02 = [
     ["/a/?{o}", "/{x}/{y}"],
     ["/{p: /a|ab/}{q: /b*/}"],
     ["/{a: /.+/}/{b: /[b-z]/}"],
+    ["/{a: /(x)+y/}-{b: /z+/}"], ["/{a: /x(y|z)*/}{b: /w/}", "/{c}"], ["/{a: /(x(y)?)+/}.{b: /[a-z]/}"],
+    (["/t/{a: /v(x)+/}-{b: /z+/}/e"], "/t/v", 6),
 ]
 
 # route sets exhibiting defects recorded in DESIGN.md §5 (fixed or listed as known findings)
@@ -324,6 +327,9 @@ C09_PROGS = [
     (["R GET /{r: /a+/}", "R GET /{x}", "H 0 X-K=v", "H 0 "], "GET", 3),
     (["R GET /{x}/{m: **}", "R GET /a/{y}/c", "H 1 X-K=v"], "GET", 5),
     (["R GET /?p", "R POST /", "H 0 X-K=v"], "?", 2),
+    (["RS * /w", "H 0 X-K=v"], "?", 2),
+    (["RS get,post /lc", "R PUT /lc", "H 0 X-K=v"], "?", 3),
+    (["RS Get /m/{x}", "RS POST,get /m/s", "H 1 X-K=v"], "?", 4),
 ]
 
 
@@ -430,7 +436,7 @@ SPECS["C03"] = Spec(
 
 
 # --------------------------------------------------------------------------- C14
-C14_SHAPES = ["string", "bytes", "error", "int-string", "teapot", "int-bytes", "int-error", "string-error", "bytes-error", "ptr-string", "int-ptr-string", "custom"]
+C14_SHAPES = ["string", "bytes", "error", "int-string", "teapot", "int-bytes", "int-error", "string-error", "bytes-error", "ptr-string", "int-ptr-string", "custom", "late-custom"]
 
 
 def c14_jobs(tier, seed):
@@ -494,6 +500,7 @@ def c04_jobs(tier, seed):
                                             "maporders": 1 if impls else 0, "rereg": 1 if (impls and fast == 0) or sig in ("0", "2,3") else 0}})
     jobs.append({"pkg_short": "inject", "body": "VH_C04_apply", "params": {"scopes": 2, "impls": "7"}, "max_paths": 400000})
     jobs.append({"pkg_short": "flamego", "body": "VH_C04_request", "params": {}, "max_paths": 400000})
+    jobs.append({"pkg_short": "inject", "body": "VH_C04_exact", "params": {}, "max_paths": 400000})
     return jobs
 
 
@@ -637,8 +644,8 @@ SPECS["C08"] = Spec(
 # --------------------------------------------------------------------------- C18
 def c18_jobs(tier, seed):
     q = 2 if tier == "quick" else 3
-    jobs = [{"pkg_short": "flamego", "body": "VH_C18_query", "params": {"vlen": q, "acc": a}, "max_paths": 400000}
-            for a in ("query", "trim", "unescape", "strings")]
+    jobs = [{"pkg_short": "flamego", "body": "VH_C18_query", "params": {"vlen": q, "acc": a, "name": nm}, "max_paths": 400000}
+            for a, nm in (("query", 0), ("query", 1), ("query", 2), ("trim", 3), ("unescape", 1), ("strings", 2))]
     jobs += [
         {"pkg_short": "flamego", "body": "VH_C18_typed", "params": {}},
         {"pkg_short": "flamego", "body": "VH_C18_escape", "params": {"vlen": 2 if tier == "quick" else 3}, "max_paths": 400000},
@@ -705,8 +712,11 @@ SPECS["C16"] = Spec(
 
 # --------------------------------------------------------------------------- C17
 def c17_jobs(tier, seed):
-    return [{"pkg_short": "flamego", "body": "VH_C17_render", "params": {"kind": k, "len": 3 if tier == "quick" else 5, "prior": prior}, "max_paths": 200000}
+    jobs = [{"pkg_short": "flamego", "body": "VH_C17_render", "params": {"kind": k, "len": 3 if tier == "quick" else 5, "prior": prior, "nested": 0}, "max_paths": 200000}
             for k in ("json", "xml", "binary", "text") for prior in (0, 1)]
+    jobs += [{"pkg_short": "flamego", "body": "VH_C17_render", "params": {"kind": k, "len": 2, "prior": 0, "nested": 1}, "max_paths": 200000}
+             for k in ("json", "text")]
+    return jobs
 
 
 SPECS["C17"] = Spec(
